@@ -200,12 +200,18 @@ func init() {
 				Seeds: [][]world.Op{
 					{opDel(0, 0, "aaa", "1000000"), opDel(0, 0, "bbb", "1000000"), opDel(1, 0, "ccc", "1000000"), opDel(1, 1, "aaa", "500000"), opBlock(1)},
 					{opDel(0, 0, "aaa", "1000000"), opDel(0, 0, "bbb", "1000000"), opDel(1, 0, "ccc", "1000000"), opDel(1, 0, "ddd", "300000"), opBlock(1)},
+					// V1 carries module stake and validator shares but no alliance delegator any more: its only position arrived by
+					// redelegation, was mostly withdrawn and then wiped by the capped slash of the source (the shares it burnt stay
+					// on the validator, K-C07); rewards the module earns there still have to be settled before its stake changes
+					{opDel(0, 0, "aaa", "1000000"), opDel(1, 2, "aaa", "500000"), opBlock(1), {K: world.KRedelegateAll, D: 0, V: 0, V2: 1, Denom: "aaa"},
+						opUnd(0, 1, "aaa", "960000"), opSlash(0, "0.05"), opBlock(1)},
 				},
 				ClassNames: classNames, Budgets: tierPick(tier, []int{2, 0, 2, 3, 0}, []int{3, 1, 3, 4, 0}), MaxDepth: tierPick(tier, 6, 8),
 				Ops: func(n *engine.Node) []world.Op {
 					ops := []world.Op{
 						{K: world.KClaim, D: 0, V: 0, Denom: "aaa", Class: ClsUser}, {K: world.KClaim, D: 1, V: 0, Denom: "ccc", Class: ClsUser},
 						{K: world.KDelegate, D: 0, V: 0, Denom: "bbb", Amt: "250000", Class: ClsUser}, {K: world.KUndelegate, D: 0, V: 0, Denom: "aaa", Amt: "400000", Class: ClsUser},
+						{K: world.KDelegate, D: 1, V: 2, Denom: "aaa", Amt: "250000", Class: ClsUser}, // shifts every validator's share of aaa, and with it its target
 						{K: world.KSlash, V: 0, F: "0.05", Class: ClsSlash},
 						{K: world.KBlock, Dt: int64(U), Class: ClsBlock},
 					}
